@@ -1514,8 +1514,8 @@ fn gen_install(rng: &mut Rng, info: &FontInfo, prop: &str) -> Option<(FontInfo, 
         _ => (7, 4, 8, 6, 6, 3, if info.axes > 0 { 20 } else { 4 }),
     };
     let p_rchain = match prop {
-        "C02" => 6,
-        "C03" => 2,
+        "C02" => 8,
+        "C03" => 3,
         "C09" => 0,
         _ => 3,
     };
@@ -1529,6 +1529,7 @@ fn gen_install(rng: &mut Rng, info: &FontInfo, prop: &str) -> Option<(FontInfo, 
     let mut focus: Option<Vec<u32>> = None;
     let want_vargpos = info.axes > 0 && rng.pct(p_vargpos);
     let want_rchain = !want_vargpos && rng.pct(p_rchain);
+    let mut want_expansion = false;
     let want_morx = !want_vargpos && !want_rchain && rng.pct(p_morx);
     let want_kern = !want_vargpos && !want_rchain && !want_morx && rng.pct(p_kern);
     if (want_morx || want_kern || want_vargpos || want_rchain) && info.char_gids.len() >= 2 && info.num_glyphs >= 3 {
@@ -1551,7 +1552,23 @@ fn gen_install(rng: &mut Rng, info: &FontInfo, prop: &str) -> Option<(FontInfo, 
                 // order other than first appearance
                 glyphs.reverse();
             }
-            if want_rchain {
+            if want_rchain && rng.pct(35) {
+                want_expansion = true;
+                glyphs.truncate(1 + rng.usize_below(6));
+                // mostly small growth (shaping cost is quadratic in the run length); a few
+                // percent are runs that would grow without bound if nothing limited them
+                let (k, lookups) = match rng.below(100) {
+                    0..=84 => (*rng.pick(&[0u16, 1, 2, 2, 3]), 1 + rng.below(3) as u8),
+                    85..=96 => *rng.pick(&[(4u16, 4u8), (8, 3), (22, 2), (2, 8), (3, 5), (500, 1)]),
+                    _ => (*rng.pick(&[8u16, 16, 40, 200]), 4 + rng.below(5) as u8),
+                };
+                surgeries.push(Surgery::InstallExpansion {
+                    glyphs,
+                    k,
+                    lookups,
+                    variant: rng.below(1 << 16),
+                });
+            } else if want_rchain {
                 surgeries.push(Surgery::InstallReverseChain {
                     glyphs,
                     variant: rng.below(1 << 16),
@@ -1641,7 +1658,13 @@ fn gen_install(rng: &mut Rng, info: &FontInfo, prop: &str) -> Option<(FontInfo, 
         } else {
             modified.gpos_features.clear();
         }
-        if want_rchain {
+        if want_expansion {
+            modified.gsub_features = vec![
+                (crate::trace::tag_from_str("ccmp"), vec![0]),
+                (crate::trace::tag_from_str("liga"), vec![0]),
+            ];
+            modified.scripts = vec!["latn".to_string(), "DFLT".to_string()];
+        } else if want_rchain {
             modified.gsub_features = vec![(crate::trace::tag_from_str("calt"), vec![0, 1])];
             modified.scripts = vec!["latn".to_string(), "DFLT".to_string()];
         }
